@@ -345,6 +345,9 @@ def check(case, acc, tmp):
     texts = {}
     for w in case['writers']:
         acc.trans += 1
+
+        def badw(sig, detail, w=w):      # the recorded case names the one writer
+            acc.violation(sig, detail, dict(case, writers=[w]))
         try:
             if w == 'to_tsv':
                 s = t.to_tsv(header_key=key, header_value=name, metadata_formatter=FORMAT[fmt_name]) \
@@ -387,7 +390,7 @@ def check(case, acc, tmp):
                 rm(src, dst)
                 exported = bool(key)
         except Exception as e:
-            bad('writer-raised:%s:%s' % (w, type(e).__name__),
+            badw('writer-raised:%s:%s' % (w, type(e).__name__),
                 '%s raised %s: %s' % (w, type(e).__name__, str(e)[:200]))
             continue
         acc.count('writer:' + w)
@@ -400,28 +403,28 @@ def check(case, acc, tmp):
             d_oids = tuple(r[0] for r in rows)
             d_vals = np.array([[float(x) for x in r[1]] for r in rows], float).reshape(len(rows), len(sids))
         except Exception as e:
-            bad('text-structure:%s' % w, '%s: text cannot be decoded as a classic table (%s: %s); text=%r'
+            badw('text-structure:%s' % w, '%s: text cannot be decoded as a classic table (%s: %s); text=%r'
                 % (w, type(e).__name__, e, s[:300]))
             continue
         if d_oids != oids:
-            bad('text-ids:%s:observation' % w, '%s: text has observation ids %r, table %r' % (w, d_oids, oids))
+            badw('text-ids:%s:observation' % w, '%s: text has observation ids %r, table %r' % (w, d_oids, oids))
             good = False
         if d_sids != sids:
-            bad('text-ids:%s:sample' % w, '%s: text has sample ids %r, table %r' % (w, d_sids, sids))
+            badw('text-ids:%s:sample' % w, '%s: text has sample ids %r, table %r' % (w, d_sids, sids))
             good = False
         if good:
             gb = tuple(tuple(int(v) for v in row) for row in d_vals.view(np.uint64)) if d_vals.size else \
                 tuple(() for _ in rows)
             if gb != bits:
                 i, j = first_diff(gb, bits)
-                bad('text-values:%s:%s' % (w, value_kind(d_vals[i, j], dense[i, j])),
+                badw('text-values:%s:%s' % (w, value_kind(d_vals[i, j], dense[i, j])),
                     '%s: cell (%d,%d) is written as %r which parses to %r, table holds %r'
                     % (w, i, j, rows[i][1][j], float(d_vals[i, j]), float(dense[i, j])))
                 good = False
             acc.count('clause:text-values')
         if exported:
             if d_name != name:
-                bad('text-metadata:%s:column-name' % w, '%s: metadata column is named %r, requested %r'
+                badw('text-metadata:%s:column-name' % w, '%s: metadata column is named %r, requested %r'
                     % (w, d_name, name))
                 good = False
             else:
@@ -430,7 +433,7 @@ def check(case, acc, tmp):
                 except Exception:
                     back = None
                 if back != exp_md:
-                    bad('text-metadata:%s:content' % w, '%s: metadata column holds %r, expected (formatted) %r'
+                    badw('text-metadata:%s:content' % w, '%s: metadata column holds %r, expected (formatted) %r'
                         % (w, [r[2] for r in rows], exp_md))
                     good = False
             acc.count('clause:text-metadata')
@@ -494,8 +497,10 @@ def check(case, acc, tmp):
                 if out is not None and not control_ok(t, fmt, base, oids, sids, bits, want_md, name):
                     acc.count('attributed-elsewhere:%s' % rd)
                 else:
-                    bad('reader-raised:%s:%s' % (rd, type(e).__name__), '%s (text of %s) raised %s: %s; text=%r'
-                        % (rd, w, type(e).__name__, str(e)[:200], s[:200]))
+                    acc.violation('reader-raised:%s:%s' % (rd, type(e).__name__),
+                                  '%s (text of %s) raised %s: %s; text=%r'
+                                  % (rd, w, type(e).__name__, str(e)[:200], s[:200]),
+                                  dict(case, writers=[w], readers=[rd]))
                 if out:
                     rm(out)
                 continue
@@ -546,7 +551,7 @@ def check(case, acc, tmp):
                 acc.count('attributed-elsewhere:%s' % rd)
                 problems = []
             for sig, detail in problems:
-                bad(sig, detail)
+                acc.violation(sig, detail, dict(case, writers=[w], readers=[rd]))
             if not problems:
                 acc.count('reader:' + rd)
         rm(path, gz)
